@@ -605,6 +605,7 @@ pub fn f_push(seed: u64, exhaustive_scripts: bool) -> Plan {
     let mut left = n_msgs_total;
     let n_phases = rng.range(1, 3);
     let mut deleted: Option<String> = None;
+    let mut topic_deleted = false;
     for ph in 0..n_phases {
         let mut scripts = Vec::new();
         let n = if ph + 1 == n_phases { left } else { rng.range(0, left) };
@@ -616,6 +617,11 @@ pub fn f_push(seed: u64, exhaustive_scripts: bool) -> Plan {
             let victim = rng.pick(&push_subs).clone();
             deleted = Some(victim.clone());
             scripts.push(vec![Step::after(rng.below(3_000_000), Op::DeleteSub { sub: victim })]);
+        }
+        // the topic may be deleted while the push subscriptions still hold (rejected or fresh) messages
+        if !exhaustive_scripts && !topic_deleted && ph + 1 == n_phases && rng.chance(200) {
+            topic_deleted = true;
+            scripts.push(vec![Step::after(rng.range(50_000, 3_000_000), Op::DeleteTopic { topic: topic.clone() })]);
         }
         if n_pull > 0 && rng.chance(500) {
             scripts.push(vec![Step::after(rng.below(500_000), Op::Pull { sub: sub_name("proj-p", 0, 10), max: 100, immediate: true }), Step::new(Op::Ack { sub: sub_name("proj-p", 0, 10), sel: sel_mine(Pick::LastResponse) })]);
@@ -1418,5 +1424,44 @@ pub fn f_lease_stream(seed: u64) -> Plan {
         plan.phases.push(Phase { scripts: vec![vec![Step::new(Op::StreamSend { slot: 1, ack: sel_any(Pick::Nth(0)), modack: Sel::none(), modack_secs: 0, raw_sub: String::new(), raw_max_msgs: 0, raw_max_bytes: 0, extra_secs: vec![], secs_pattern: vec![] })]], advance_us: 0, audit: true });
     }
     plan.phases.push(Phase { scripts: vec![], advance_us: *rng.pick(&[0u64, 30_000_000, 700_000_000]), audit: true });
+    plan
+}
+
+// ------------------------------------------------------------------------------------------------
+// F-topicdelete: publishers racing a DeleteTopic on a topic that has already issued IDs.
+// ------------------------------------------------------------------------------------------------
+
+pub fn f_topicdelete(seed: u64) -> Plan {
+    let mut rng = Rng::new(seed);
+    let mut plan = Plan { seed, family: "topicdelete".into(), final_drain: true, health_probe: true, ..Default::default() };
+    plan.knobs = knobs(&mut rng, true, 0);
+    let topic = topic_name("proj-t", 0);
+    let sub = sub_name("proj-t", 0, 0);
+    plan.phases.push(Phase {
+        scripts: vec![vec![
+            Step::new(Op::CreateTopic { topic: topic.clone() }),
+            Step::new(Op::CreateSub { sub: sub.clone(), topic: topic.clone(), ack_deadline: 10, push: None }),
+            Step::new(Op::Publish { topic: topic.clone(), msgs: msgs_r(&mut rng, 1, 4, false) }),
+            Step::new(Op::Publish { topic: topic.clone(), msgs: msgs_r(&mut rng, 1, 4, false) }),
+        ]],
+        advance_us: rng.below(500_000),
+        audit: false,
+    });
+    let mut scripts: Vec<Vec<Step>> = Vec::new();
+    let n = rng.range(2, 8);
+    let del_pos = rng.below(n);
+    for i in 0..n {
+        if i == del_pos {
+            scripts.push(vec![Step::after(rng.below(2) * rng.below(300), Op::DeleteTopic { topic: topic.clone() })]);
+        }
+        let mut s = Vec::new();
+        for _ in 0..rng.range(1, 2) {
+            s.push(Step::after(rng.below(2) * rng.below(300), Op::Publish { topic: topic.clone(), msgs: msgs_r(&mut rng, 1, 3, false) }));
+        }
+        scripts.push(s);
+    }
+    plan.phases.push(Phase { scripts, advance_us: 0, audit: true });
+    // the orphaned subscription still serves what it got
+    plan.phases.push(Phase { scripts: vec![vec![Step::new(Op::Pull { sub: sub.clone(), max: 1000, immediate: true })]], advance_us: 0, audit: false });
     plan
 }
